@@ -80,12 +80,15 @@ FLAT_AXIOMS = {
     "any-other-redirect-shape-is-passed-on-as-it-is (rejected later)":
         "forall(lambda k: implies(isinstance(%(C)s[k], tuple) and len(%(C)s[k][1]) != 1, woven(%(C)s[:k + 1]) == woven(%(C)s[:k]) + [narrow(%(C)s[k])]), 0, len(%(C)s))" % dict(C=C0),
 }
-contract(
-    SPX + "SubprocSpec.resolve_args_list", "C04", params=dict(self=Obj("SubprocSpec", cmd=List(ARG_IN))), locals={"resolved_cmd": List(ARG_OUT)},
-    config={"isinstance": {"str": ["str"], "list": ["seq"], "tuple": ["tuple"]}, "injseq_fn": True}, externals=FLAT_EXT, axioms=FLAT_AXIOMS,
-    modifies=["self.cmd"],
-    loops={"for#1": dict(invariant={"woven-so-far": "resolved_cmd == woven(%s[:_i])" % C0}, havoc_only=["resolved_cmd"])},
-    ensures={"the-command-is-the-weave-of-its-elements-in-order-nothing-re-split-merged-dropped-or-added": "self.cmd == woven(%s)" % C0},
-    from_property="a value injected with @(expr) arrives verbatim, one argument per string or element, never re-split (the weave is defined by four axioms: a word adds itself, "
-                  "an injected list adds its strings in order, a redirect adds its (operator, target) pair)",
-)
+for _prop_ral, _from_ral in (("C04", "a value injected with @(expr) arrives verbatim, one argument per string or element, never re-split (the weave is defined by four axioms: a word adds itself, "
+                              "an injected list adds its strings in order, a redirect adds its (operator, target) pair)"),
+                             ("C07", "conflicting or malformed redirects are reported as errors rather than silently misrouted (a redirect whose target expands to several words is passed on "
+                              "UNCHANGED, so that resolve_redirects rejects it - it is never cut down to its first word)")):
+    contract(
+        SPX + "SubprocSpec.resolve_args_list", _prop_ral, params=dict(self=Obj("SubprocSpec", cmd=List(ARG_IN))), locals={"resolved_cmd": List(ARG_OUT)},
+        config={"isinstance": {"str": ["str"], "list": ["seq"], "tuple": ["tuple"]}, "injseq_fn": True}, externals=FLAT_EXT, axioms=FLAT_AXIOMS,
+        modifies=["self.cmd"],
+        loops={"for#1": dict(invariant={"woven-so-far": "resolved_cmd == woven(%s[:_i])" % C0}, havoc_only=["resolved_cmd"])},
+        ensures={"the-command-is-the-weave-of-its-elements-in-order-nothing-re-split-merged-dropped-or-added": "self.cmd == woven(%s)" % C0},
+        from_property=_from_ral,
+    )
